@@ -182,3 +182,23 @@ Theorem C01_write_format_is_source : forall r,
     :: map SrcGen.src_fasta_Write_1 (Bio.Model.Fasta.chunks (Bio.Model.Fasta.seq r)).
 Proof. exact SrcGenProofs.fasta_write_is_source. Qed.
 Print Assumptions C01_write_format_is_source.
+
+(* ---- tie to the Go source by translation of whole function bodies (gen/ImpGen.v, written
+   by `harness gen-imp` on every run, in the embedding of Model/GoSem.v) ------------------- *)
+From Bio.gen Require ImpGen.
+From Bio.Model Require GoSem.
+From Bio.Proofs Require ImpProofs ImpProofsG.
+
+(* Fasta.Write as translated from fasta.go — the header call, the loop
+   `for i := 0; i < len(f.Sequence); i += textLineLen` with its min() and slice, one Fprintf
+   per line — hands to a writer that never fails exactly the chunks of the model, for every
+   record (any fuel above the sequence length runs the loop to its end). *)
+Theorem C01_write_is_source : forall fuel r, (length (Bio.Model.Fasta.seq r) < fuel)%nat ->
+  ImpGen.imp_fasta_Fasta_Write fuel (ImpProofsG.fa_of r) = GoSem.Ret (Bio.Model.Fasta.write_calls r, false).
+Proof. exact ImpProofsG.imp_Fasta_Write. Qed.
+Print Assumptions C01_write_is_source.
+
+Example C01_source_example :
+  ImpGen.imp_fasta_Fasta_Write 200 (ImpProofsG.fa_of {| Bio.Model.Fasta.name := bs "n"; Bio.Model.Fasta.seq := repeat 65%N 81 |})
+  = GoSem.Ret ([bs ">n" ++ [10%N]; repeat 65%N 80 ++ [10%N]; [65%N; 10%N]], false).
+Proof. vm_compute. reflexivity. Qed.
